@@ -70,6 +70,8 @@ Equiv(v, w) ==
     ELSE CASE ConvKind(v.t) = "scale" -> SMul(v.a, RDiv(ScaleOf(v.u), ScaleOf(w)))
            [] ConvKind(v.t) = "table" -> STableConv(TTable, v.a, v.u, w)
            [] OTHER                   -> NoRat
+\* the same with a money converter active: currencies convert by the converter's rates
+EquivMC(v, w) == IF v.t = "Money" /\ v.u # w THEN SMul(v.a, MRate(v.u, w)) ELSE Equiv(v, w)
 \* exact value in reference units (scale types only)
 RefVal(v) == SMul(v.a, ScaleOf(v.u))
 
@@ -102,6 +104,15 @@ Sub(x, y, mode) == AddSub(-1, x, y, mode)
 Neg(x, mode)    == Construct(x.u, SNeg(x.a), mode)
 AbsQ(x, mode)   == Construct(x.u, SAbs(x.a), mode)
 
+(* the same operations on money while a money converter is active (C05, C12): the converted operand
+   is NOT rounded before the operation - the result is rounded once *)
+ConvertMC(q, w, mode) ==
+    IF TypeOf(w) # q.t THEN ErrV("IncompatibleUnitsError") ELSE Construct(w, EquivMC(q, w), mode)
+AddSubMC(sgn, x, y, mode) ==
+    IF IsQ(x) /\ IsQ(y) /\ x.t = "Money" /\ y.t = "Money"
+    THEN Construct(x.u, IF sgn = 1 THEN SAdd(x.a, EquivMC(y, x.u)) ELSE SSub(x.a, EquivMC(y, x.u)), mode)
+    ELSE AddSub(sgn, x, y, mode)
+
 (* C03 / C04: op \in {"lt","le","gt","ge","eq","ne"} *)
 Tri(s) == IF s = "O" THEN OORV ELSE BoolV(s = "T")
 \* units of one type compare like quantities of amount one (by their scale)
@@ -115,6 +126,10 @@ Cmp(op, x, y) ==
     ELSE IF op = "ne" THEN BoolV(TRUE)
     ELSE IF (IsQ(x) /\ IsQ(y)) \/ (IsU(x) /\ IsU(y)) THEN ErrV("IncompatibleUnitsError")
     ELSE ErrV("TypeError")
+
+CmpMC(op, x, y) ==
+    IF IsQ(x) /\ IsQ(y) /\ x.t = "Money" /\ y.t = "Money" THEN Tri(SCmp(op, x.a, EquivMC(y, x.u)))
+    ELSE Cmp(op, x, y)
 
 (* quantity.sum(items) without start value: left fold of +, the result has  *)
 (* the first item's unit (C03).                                             *)
